@@ -104,4 +104,30 @@ def getitem2D {α} (data : List α) (h w : Nat) : Key2 → Py (IdxResult α)
 def reshape {α} (data : List α) (h w : Nat) : Py (IdxResult α) :=
   if data.length ≠ h * w then .error .valueError else .ok (.arr2 h w data)
 
+/-- `_infer_shape(data)`: `ValueError` when there is no row ("shape cannot be inferred for empty
+lists"); `height = len(data)`, `width = len(data[0])`; `ValueError` when some later row has another
+length ("jugged arrays"); else `(height, width)`. -/
+def inferShape {α} (rows : List (List α)) : Py (Nat × Nat) :=
+  match rows with
+  | [] => .error .valueError
+  | r0 :: rest =>
+    let height := rows.length
+    let width := r0.length
+    if rest.all (fun r => r.length == width) then .ok (height, width) else .error .valueError
+
+/-- `_flatten(data)`: `ret = []; for row in data: ret += row`. -/
+def flattenRows {α} (rows : List (List α)) : List α :=
+  rows.foldl (fun ret row => ret ++ row) []
+
+/-- `Array2D.__init__(data, shape=None)`: the nested form.  `data` is first turned into a list of
+lists (`list(map(list, data))`, so rows may be any iterables), the shape is inferred
+(`_infer_shape`, which runs first, so its `ValueError` wins) and the rows are concatenated
+(`_flatten`).  Result: `(shape[0], shape[1], data)`.
+Out of scope: an element of `data` that is not iterable (Python raises `TypeError` from `list(e)`);
+here every row is a list by typing. -/
+def ofNested {α} (rows : List (List α)) : Py (Nat × Nat × List α) := do
+  let (h, w) ← inferShape rows
+  let data := flattenRows rows
+  .ok (h, w, data)
+
 end Cspuz
